@@ -5,7 +5,8 @@ set -u
 P=$1; N=$2; shift 2
 CHECKS="${*:-$P}"
 WT=/tmp/wt/$P
-SRC=/tmp/seeded_out/$P/$N
+SRC=${SEEDDIR:-/tmp/seeded_out}/$P/$N
+TAG=${SEEDTAG:-}
 export CARGO_NET_OFFLINE=true
 cd "$WT" || exit 2
 git checkout -q -- . ; rm -f tests/demo.rs
@@ -39,7 +40,7 @@ for c in $CHECKS; do
 done
 git -C /repo checkout -q -- .
 echo "$P-$N: detected by:${det:- NONE} (ran: $CHECKS)"
-D=/verif/seeded/$P-$N; mkdir -p $D; cp "$SRC/patch.diff" "$SRC/demo.rs" $D/
+D=/verif/seeded/$P-${TAG}$N; mkdir -p $D; cp "$SRC/patch.diff" "$SRC/demo.rs" $D/
 python3 - "$SRC/meta.json" "$D/meta.json" "$P" "$det" "$CHECKS" <<'PY'
 import json,sys
 m=json.load(open(sys.argv[1]))
